@@ -71,18 +71,56 @@ func looseEq(a, b reflect.Value, depth int) bool {
 		if a.Len() != b.Len() {
 			return false
 		}
+		var loose []reflect.Value // keys of a that b does not have by == (pointer keys such as *url.URL)
 		for _, k := range a.MapKeys() {
 			bv := b.MapIndex(k)
 			if !bv.IsValid() {
-				// keys that are not comparable by == (pointers): fall back to length equality
+				loose = append(loose, k)
 				continue
 			}
 			if !looseEq(a.MapIndex(k), bv, depth+1) {
 				return false
 			}
 		}
+		if len(loose) > 0 {
+			// match them one to one against b's keys by content
+			used := map[int]bool{}
+			bkeys := b.MapKeys()
+			for _, k := range loose {
+				found := false
+				for j, bk := range bkeys {
+					if used[j] || a.MapIndex(bk).IsValid() {
+						continue
+					}
+					if looseEq(k, bk, depth+1) && looseEq(a.MapIndex(k), b.MapIndex(bk), depth+1) {
+						used[j], found = true, true
+						break
+					}
+				}
+				if !found {
+					return false
+				}
+			}
+		}
 		return true
 	case reflect.Struct:
+		// structs with exported fields only (types.Node, types.Edge, types.Media, user structs) are
+		// compared field by field: their printed form is not stable when they hold a map with several
+		// pointer keys (fmt sorts such keys by address)
+		allExported := a.NumField() > 0
+		for i := 0; i < a.NumField(); i++ {
+			if a.Type().Field(i).PkgPath != "" {
+				allExported = false
+			}
+		}
+		if allExported {
+			for i := 0; i < a.NumField(); i++ {
+				if !looseEq(a.Field(i), b.Field(i), depth+1) {
+					return false
+				}
+			}
+			return true
+		}
 		if a.CanInterface() && b.CanInterface() {
 			return fmt.Sprintf("%+v", a.Interface()) == fmt.Sprintf("%+v", b.Interface()) || reflect.DeepEqual(a.Interface(), b.Interface())
 		}
